@@ -1,6 +1,7 @@
 package main
 
 import (
+	"os"
 	"fmt"
 	"go/token"
 	"go/types"
@@ -311,6 +312,7 @@ func (e *Enc) applyCall(name, kind string, fn *ssa.Function, fc *FuncContract, c
 			if at.Callee != name && at.Callee != fmt.Sprintf("%s#%d", name, ord) {
 				continue
 			}
+			e.atHit[i] = true
 			cenv := e.fnEnv(pre)
 			for k, v := range env.vars {
 				if _, clash := cenv.vars[k]; !clash {
@@ -441,8 +443,8 @@ func (e *Enc) applyCall(name, kind string, fn *ssa.Function, fc *FuncContract, c
 	}
 	if fc != nil {
 		for _, cl := range fc.Ens {
-			if strings.Contains(cl.Src, "calls(\"") {
-				continue // counts the callee's own calls: says nothing to the caller
+			if strings.Contains(cl.Src, "calls(\"") || strings.HasPrefix(cl.Label, "body-") {
+				continue // about the callee's own calls or locals: says nothing to the caller
 			}
 			t, err := post.Eval(cl.Expr)
 			if err != nil {
@@ -725,6 +727,7 @@ func (e *Enc) encodeBuiltin(c *ssa.CallCommon, instr ssa.Instruction, pos token.
 				if at.Callee != "delete" {
 					continue
 				}
+				e.atHit[i] = true
 				env := e.fnEnv(e.cur)
 				env.vars["m"] = TV{T: m, Typ: c.Args[0].Type()}
 				env.vars["k"] = TV{T: k, Typ: c.Args[1].Type()}
@@ -805,6 +808,7 @@ func (e *Enc) encodeAppend(c *ssa.CallCommon, instr ssa.Instruction, pos token.P
 			if at.Callee != want && at.Callee != fmt.Sprintf("%s#%d", want, ord) {
 				continue
 			}
+			e.atHit[i] = true
 			env := e.fnEnv(e.cur)
 			elem0 := Select(Select(e.heapGet(e.cur, ek), SliceArr(srcSlice)), SliceOff(srcSlice))
 			env.vars["elem"] = TV{T: e.define("appelem", elem0), Typ: st.Elem()}
@@ -880,28 +884,133 @@ func (e *Enc) loopEnv(li *loopInfo, st *State, bind map[ssa.Value]Val) *Env {
 	return env
 }
 
+// nameSince: the instruction from which on the variable name holds value c (its first debug reference;
+// for phis and values without one, the definition itself). nil for constants and parameters.
+func (e *Enc) nameSince(name string, c ssa.Value) ssa.Instruction {
+	if phi, ok := c.(*ssa.Phi); ok {
+		return phi // a merge of assignments: the variable holds it from the join on
+	}
+	if m := e.nameAt[name]; m != nil {
+		if at, ok := m[c]; ok {
+			return at
+		}
+	}
+	in, _ := c.(ssa.Instruction)
+	return in
+}
+
+func (e *Enc) inScopeAt(at ssa.Instruction) bool {
+	if at == nil || e.curBlock == nil || at.Block() == nil || at.Block().Parent() != e.curBlock.Parent() {
+		return true
+	}
+	if at.Block() == e.curBlock {
+		if e.curInstr == nil || e.curInstr.Block() != e.curBlock {
+			return true
+		}
+		ai, ci := -1, -1
+		for i, x := range e.curBlock.Instrs {
+			if x == at {
+				ai = i
+			}
+			if x == e.curInstr {
+				ci = i
+			}
+		}
+		return ai < ci
+	}
+	return at.Block().Dominates(e.curBlock)
+}
+
+func (e *Enc) instrPosition(in ssa.Instruction) (depth, index int) {
+	if in == nil || in.Block() == nil {
+		return -1, 0
+	}
+	for b := in.Block(); b != nil; b = b.Idom() {
+		depth++
+	}
+	for i, x := range in.Block().Instrs {
+		if x == in {
+			index = i
+		}
+	}
+	return
+}
+
+// defPosition orders definitions that dominate one another: depth of the defining block in the
+// dominator tree, then the position inside the block (constants and parameters come first).
+func (e *Enc) defPosition(v ssa.Value) (depth, index int) {
+	in, ok := v.(ssa.Instruction)
+	if !ok || in.Block() == nil {
+		return -1, 0
+	}
+	for b := in.Block(); b != nil; b = b.Idom() {
+		depth++
+	}
+	for i, x := range in.Block().Instrs {
+		if x == in {
+			index = i
+		}
+	}
+	return
+}
+
 // fnEnv: parameters, free variables, named SSA values, promoted locals.
 func (e *Enc) fnEnv(st *State) *Env {
 	env := &Env{e: e, vars: map[string]TV{}, state: st, old: e.entry, now0: e.now0}
-	// uniquely named SSA values
+	// a source name denotes the value the variable holds here: among the SSA values known under the
+	// name (debug references and phis) whose definition dominates this point, the latest one
+	cands := map[string][]ssa.Value{}
 	for name, vs := range e.names {
-		if len(vs) == 1 {
-			if v, ok := e.vals[vs[0]]; ok && v.Addr == nil && v.Tuple == nil && e.inScope(vs[0]) {
-				env.vars[name] = TV{T: v.T, Typ: vs[0].Type()}
-			}
-		}
+		cands[name] = append(cands[name], vs...)
 	}
-	// enclosing-loop phis by name
 	for _, b := range e.fn.Blocks {
 		for _, in := range b.Instrs {
 			phi, ok := in.(*ssa.Phi)
 			if !ok {
 				break
 			}
-			if v, ok := e.vals[phi]; ok && phi.Comment != "" && e.inScope(phi) {
-				if _, dup := env.vars[phi.Comment]; !dup {
-					env.vars[phi.Comment] = TV{T: v.T, Typ: phi.Type()}
+			if phi.Comment != "" {
+				cands[phi.Comment] = append(cands[phi.Comment], phi)
+			}
+		}
+	}
+	for name, vs := range cands {
+		var best ssa.Value
+		bd, bi := -2, 0
+		for _, c := range vs {
+			v, ok := e.vals[c]
+			if !ok || v.Addr != nil || v.Tuple != nil || v.T.S == "" {
+				continue
+			}
+			at := e.nameSince(name, c)
+			if !e.inScopeAt(at) {
+				continue
+			}
+			d, i := e.instrPosition(at)
+			if best == nil || d > bd || (d == bd && i > bi) {
+				best, bd, bi = c, d, i
+			}
+		}
+		if best == nil && e.nameFallback {
+			// postconditions are evaluated at every return: a name not yet defined on the way to an early
+			// return still has to denote something there (its value is unconstrained on that path)
+			for _, c := range vs {
+				v, ok := e.vals[c]
+				if !ok || v.Addr != nil || v.Tuple != nil || v.T.S == "" {
+					continue
 				}
+				d, i := e.defPosition(c)
+				if best == nil || d > bd || (d == bd && i > bi) {
+					best, bd, bi = c, d, i
+				}
+			}
+		}
+		if best != nil {
+			env.vars[name] = TV{T: e.vals[best].T, Typ: best.Type()}
+		} else if os.Getenv("PVC_DEBUG_NAMES") == name && os.Getenv("PVC_DEBUG_FN") == e.name {
+			for _, c := range vs {
+				v, ok := e.vals[c]
+				fmt.Fprintf(os.Stderr, "name %s cand %s (%T) ok=%v addr=%v tuple=%v T=%q since=%v inscope=%v cur=%v\n", name, c.Name(), c, ok, v.Addr != nil, v.Tuple != nil, v.T.S, e.nameSince(name, c), e.inScopeAt(e.nameSince(name, c)), e.curBlock)
 			}
 		}
 	}
@@ -1376,7 +1485,12 @@ func (e *Enc) checkPost(rets []retRec) {
 	sig := e.fn.Signature
 	pos := e.fn.Pos()
 	envOf := func(r retRec) *Env {
+		if r.block != nil {
+			e.curBlock = r.block // names are resolved as of the return statement
+		}
+		e.nameFallback = true
 		env := e.fnEnv(r.state)
+		e.nameFallback = false
 		for i := 0; i < sig.Results().Len() && i < len(r.vals); i++ {
 			rt := sig.Results().At(i).Type()
 			tv := TV{T: e.coerce(r.vals[i]), Typ: rt}
